@@ -746,7 +746,7 @@ func bGetinterval(intp *Interpreter) error {
 	index, ok := intp.Stack[len(intp.Stack)-2].(Integer)
 	if !ok {
 		return intp.e(eTypecheck, "getinterval: invalid index")
-	} else if index < 0 || index >= Integer(n) {
+	} else if index < 0 || index > Integer(n) {
 		return intp.e(eRangecheck, "getinterval: index %d out of bounds", index)
 	}
 	count, ok := intp.Stack[len(intp.Stack)-1].(Integer)
